@@ -23,10 +23,19 @@ WITNESSES = {
 }
 
 
+def idempotence_witness(kind="owner byte", slot=5):
+    base = SC.MapGen(random.Random(13), "editor", nloc=255, all_sections=True).build()
+    return findings.with_uprp_slot(base, slot, findings.DROPPED_ONLY_SLOTS[kind])
+
+
 def gen_cases(rng, n):
     cases = []
     for name, b in SC.fixtures():
         cases.append(("fixture:" + name, b, "editor"))
+    # boundary family of the "is this slot used" tests: records that are non-zero ONLY in fields the rich model drops
+    for kind in findings.DROPPED_ONLY_SLOTS:
+        for slot in (0, 5, 63):
+            cases.append((f"dropped-only:{kind}:{slot}", idempotence_witness(kind, slot), "wild"))
     for i in range(n):
         form = "editor" if i % 3 else "wild"
         opts = dict(nloc=255, all_sections=True) if form == "editor" else {}
@@ -86,6 +95,10 @@ def run(ck: vlib.Check):
         # idempotence for every map that decodes
         r2 = RC.impl_load_save(out)
         if r2 != [1, list(out)]:
+            key = findings.explain_idempotence(out, bytes(r2[1])) if r2[0] == 1 else None
+            if key in known_keys:
+                seen_keys.add(key)
+                continue
             what = "raises" if r2[0] == 0 else "; ".join(RC.chunk_diff(out, bytes(r2[1]))[:3])
             ck.violation(f"{label}: a second load/save cycle does not reproduce the first: {what}",
                          {"kind": "idempotence", "label": label, "input_hex": b.hex() if len(b) < 400000 else None}, True)
@@ -96,6 +109,11 @@ def run(ck: vlib.Check):
             b = WITNESSES[key]()
             r = RC.impl_load_save(b)
             if r[0] == 1 and bytes(r[1]) != b and key in findings.explain(b, bytes(r[1]))[0]:
+                ck.known(f"key={key} {text}")
+        elif key == "uprp-slot-dropped-fields-only":
+            r = RC.impl_load_save(idempotence_witness())
+            r2 = RC.impl_load_save(bytes(r[1])) if r[0] == 1 else r
+            if r[0] == 1 and r2[0] == 1 and r2 != r and findings.explain_idempotence(bytes(r[1]), bytes(r2[1])) == key:
                 ck.known(f"key={key} {text}")
     if drv_ok:
         small = [(l, b) for (l, b, _), r in zip(cases, impl)]
